@@ -801,7 +801,7 @@ def main(argv):
     if a.replay:
         return runner.do_replay(PID, replay_case, a.replay)
     chk = Check(PID, "exploration", RULE, ASSUME)
-    n = a.modules or chk.pick(480, 12000)
+    n = a.modules or chk.pick(900, 12000)
     t1 = time.time()
     runner.regression_and_probes(chk, replay_case)
     chk.extra_coverage["replays_and_probes_s"] = round(time.time() - t1, 1)
